@@ -43,7 +43,9 @@ def run(chk: Check, proj: Project) -> None:
 
     w_ = world(proj)
     chk.borrow("S6", "a cached Template is transparent only if rendering it does not depend on earlier renders: Node objects of the library store nothing on themselves at render time (a memo on a Node lives as long as the template stays cached - e.g. the component class looked up once survives a re-registration of the name) (shared with C07-S1-A2)",
-               lambda sub: (C07.s1a_nodes(sub, proj, w_, set()), C07.s1a_parsed_values(sub, proj, w_)), only=lambda o: "Node" in o.construct or "node" in o.construct or "no-shared-write" in o.construct)
+               lambda sub: (C07.s1a_nodes(sub, proj, w_, C07.reach_set(proj, w_)), C07.s1a_parsed_values(sub, proj, w_)), only=lambda o: "Node" in o.construct or "node" in o.construct or "no-shared-write" in o.construct or ":template." in o.construct)
+    chk.borrow("S8", "a cached Template renders the same on every render, also after a render that FAILED: objects that hang off its nodes and initialise themselves lazily on the first render (the compiled form of a tag's arguments) mark themselves ready only once the work is done - a flag set first survives an exception in the work, and every later render of the cached object fails with an internal error where a fresh compilation reports the real one (shared with C07-S1-A1)",
+               lambda sub: C07.s1a_publication(sub, proj, w_, C07.reach_set(proj, w_)), only=lambda o: "tag_parser" in o.construct or "template" in o.construct.lower() or "node" in o.construct.lower())
     s5_accessors(chk, proj, ["TEMPLATE_CACHE_SIZE"], rule="S5")
     s7_values_are_opaque(chk, proj)
     cm, cf = proj.func("cache", "get_template_cache")
